@@ -12,7 +12,7 @@ GEN = oc.GEN
 GEN_DEPS = ["GenHseq.v", "GenOptics.v", "GenShape.v"]
 TARGETS_CHECK = ["theories/Check/C04o.vo", "theories/Check/C04.vo"]
 TARGETS_PROP = ["theories/Properties/C04.vo"]
-SHARD = 300
+SHARD = 100     # cases per coqc; the shards are evaluated in parallel
 PRELUDE = "Open Scope string_scope.\n"
 RULE = ("8 fixed corner shapes + 44 (quick) / 600 (thorough) random struct shapes + 4 fixed and 4 / 54 random homonym shapes generated as Go source from VERIF_SEED (as C03); per "
         "shape, built in generated typed Go source: up to 5 Join chains of depth 2-3 over struct-typed fields (plain and value-embedded), "
